@@ -581,30 +581,75 @@ def _cell_ctx(cell):
 CELL_TOL = {"chol": (1e-8, 1e-9), "cg": (5e-4, 5e-4), "fpv": (1e-6, 1e-6), "fps": (1e-5, 1e-5), "fpv+fps": (1e-5, 1e-5)}
 
 
-def case_sgpr(ctx, idx, tier):
+HIST = ["setters", "optim", "load_state_dict", "set_train_data"]
+
+
+def _apply_history(kind, mdl, lik, set_params, p1, build, new_data, torch):
+    """`mdl` holds the INITIAL parameters and has just predicted in eval mode (all eval caches are filled).
+    Move it to its final state through one of the documented invalidation points:
+      setters          train() -> assign hyper-parameters -> eval()
+      optim            train() -> three Adam steps on the exact MLL -> eval()
+      load_state_dict  load the state of a fresh model built with the final parameters (stays in eval mode)
+      set_train_data   replace the training data (stays in eval mode; parameters unchanged)"""
+    import gpytorch
+    if kind == "setters":
+        mdl.train(); lik.train()
+        set_params(mdl, lik, p1)
+        mdl.eval(); lik.eval()
+    elif kind == "optim":
+        mdl.train(); lik.train()
+        opt = torch.optim.Adam(mdl.parameters(), lr=0.05)
+        mll = gpytorch.mlls.ExactMarginalLogLikelihood(lik, mdl)
+        with warnings.catch_warnings():
+            quiet()
+            for _ in range(3):
+                opt.zero_grad()
+                loss = -mll(mdl(*mdl.train_inputs), mdl.train_targets)
+                loss.backward()
+                opt.step()
+        opt.zero_grad()
+        mdl.eval(); lik.eval()
+    elif kind == "load_state_dict":
+        m2, _ = build(p1)
+        mdl.load_state_dict(m2.state_dict())
+    elif kind == "set_train_data":
+        mdl.set_train_data(new_data[0], new_data[1], strict=False)
+    else:
+        raise ValueError(kind)
+
+
+def case_sgpr(ctx, idx, tier, hist=None):
     import gpytorch
     torch = _t()
-    rng = ctx.rng(f"sgpr:{idx}")
+    rng = ctx.rng(f"{'hist_' if hist else ''}sgpr:{idx}")
     torch.manual_seed(rng.torch_seed())
     d = rng.randint(1, 2)
     n, m, ns = rng.randint(5, 9), rng.randint(2, 4), rng.randint(2, 4)
-    X, Xs = torch.rand(n, d), torch.rand(ns, d)
-    # well separated inducing points (keeps Kzz well conditioned: cond <= ~1e5)
-    if d == 1:
-        Z = torch.tensor([[(k + 0.5 + rng.uniform(-0.3, 0.3)) / m] for k in range(m)])
-    else:
+    X0, Xs = torch.rand(n, d), torch.rand(ns, d)
+
+    def draw_z():
+        # well separated inducing points (keeps Kzz well conditioned: cond <= ~1e5)
+        if d == 1:
+            return torch.tensor([[(k + 0.5 + rng.uniform(-0.3, 0.3)) / m] for k in range(m)])
         while True:
             Z = torch.rand(m, d) * 0.9 + 0.05
             if torch.cdist(Z, Z).add(torch.eye(m) * 9).min().item() > 0.25:
-                break
-    y = torch.sin(3 * X[:, 0]) + 0.2 * torch.randn(n)
-    noise, cmean = 0.05 + 0.2 * rng.random(), rng.uniform(-0.5, 0.5)
-    oscale, ls = 0.8 + rng.random(), 0.25 + 0.3 * rng.random()
-    cell = ["chol", "cg", "fpv"][idx % 3]
+                return Z
+    y0 = torch.sin(3 * X0[:, 0]) + 0.2 * torch.randn(n)
+
+    def draw_params():
+        return dict(noise=0.05 + 0.2 * rng.random(), cmean=rng.uniform(-0.5, 0.5), oscale=0.8 + rng.random(),
+                    ls=0.25 + 0.3 * rng.random(), Z=draw_z())
+    p1 = draw_params()
+    p0 = draw_params()
+    n2 = rng.randint(5, 9)
+    X2 = torch.rand(n2, d)
+    y2 = torch.cos(2 * X2[:, 0]) + 0.2 * torch.randn(n2)
+    cell = ["chol", "cg", "fpv"][(idx // len(HIST) if hist else idx) % 3]
 
     class SGPR(gpytorch.models.ExactGP):
-        def __init__(s, lik):
-            super().__init__(X, y, lik)
+        def __init__(s, lik, Z):
+            super().__init__(X0, y0, lik)
             s.mean_module = gpytorch.means.ConstantMean()
             s.base = gpytorch.kernels.ScaleKernel(gpytorch.kernels.RBFKernel())
             s.covar_module = gpytorch.kernels.InducingPointKernel(s.base, inducing_points=Z.clone(), likelihood=lik)
@@ -612,42 +657,64 @@ def case_sgpr(ctx, idx, tier):
         def forward(s, x):
             return gpytorch.distributions.MultivariateNormal(s.mean_module(x), s.covar_module(x))
 
-    def build():
+    def set_params(mdl, lik, p):
+        lik.noise = p["noise"]
+        mdl.mean_module.constant.data.fill_(p["cmean"])
+        mdl.base.outputscale = p["oscale"]
+        mdl.base.base_kernel.lengthscale = p["ls"]
+        mdl.covar_module.inducing_points.data.copy_(p["Z"])
+
+    def build(p):
         lik = gpytorch.likelihoods.GaussianLikelihood()
-        mdl = SGPR(lik)
-        lik.noise = noise
-        mdl.mean_module.constant.data.fill_(cmean)
-        mdl.base.outputscale = oscale
-        mdl.base.base_kernel.lengthscale = ls
+        mdl = SGPR(lik, p["Z"])
+        set_params(mdl, lik, p)
         return mdl, lik
 
     obs = {}
     lines = []
     for corr in (True, False):
-        mdl, lik = build()
-        with torch.no_grad(), warnings.catch_warnings(), gpytorch.settings.sgpr_diagonal_correction(corr):
+        with warnings.catch_warnings(), gpytorch.settings.sgpr_diagonal_correction(corr):
             quiet()
-            # training objective
-            mdl.train(); lik.train()
-            mll = gpytorch.mlls.ExactMarginalLogLikelihood(lik, mdl)
-            objective = mll(mdl(X), y).item()
-            mdl.eval(); lik.eval()
-            with _cell_ctx(cell):
-                pred = mdl(Xs)
-                pm, pc = pred.mean.clone(), pred.covariance_matrix.clone()
-                cache = mdl.prediction_strategy.covar_cache.clone()
-            Rroot = mdl.covar_module._inducing_inv_root.clone()
-            kern_xx = mdl.covar_module(X, X).to_dense()
-            kern_sx = mdl.covar_module(Xs, X).to_dense()
-            Kd = mdl.base(X, X, diag=True)
-            Kxz, Kzz = mdl.base(X, Z).to_dense(), mdl.base(Z, Z).to_dense()
-            Kzz = torch.triu(Kzz) + torch.triu(Kzz, 1).T   # bit-exact symmetry (the float matrix can be 1 ulp off)
-            Ksz, Kss = mdl.base(Xs, Z).to_dense(), mdl.base(Xs, Xs).to_dense()
-        obs[corr] = dict(objective=objective, pm=pm, pc=pc, cache=cache, kern_xx=kern_xx, kern_sx=kern_sx)
-        r = y - cmean
+            if hist is None:
+                mdl, lik = build(p1)
+            else:
+                mdl, lik = build(p0)
+                mdl.eval(); lik.eval()
+                with torch.no_grad(), _cell_ctx(cell):
+                    mdl(Xs).covariance_matrix          # fills prediction_strategy + the kernel's eval caches
+                    mdl.covar_module(X0, X0).to_dense()
+                _apply_history(hist, mdl, lik, set_params, p1, build, (X2, y2), torch)
+            X, y = mdl.train_inputs[0], mdl.train_targets
+            nn_ = X.shape[0]
+            with torch.no_grad():
+                mdl.eval(); lik.eval()
+                with _cell_ctx(cell):
+                    pred = mdl(Xs)
+                    pm, pc = pred.mean.clone(), pred.covariance_matrix.clone()
+                    cache = mdl.prediction_strategy.covar_cache.clone()
+                Z = mdl.covar_module.inducing_points.detach().clone()
+                noise_v, cm_v = lik.noise.item(), mdl.mean_module.constant.item()
+                Rroot = mdl.covar_module._inducing_inv_root.clone()
+                from linear_operator.utils.cholesky import psd_safe_cholesky
+                Rfresh = torch.linalg.solve_triangular(psd_safe_cholesky(mdl.base(Z, Z).to_dense(), upper=True), torch.eye(m), upper=True)
+                root_dev = (Rroot - Rfresh).abs().max().item() / max(1.0, Rfresh.abs().max().item())
+                kern_xx = mdl.covar_module(X, X).to_dense()
+                kern_sx = mdl.covar_module(Xs, X).to_dense()
+                Kd = mdl.base(X, X, diag=True)
+                Kxz, Kzz = mdl.base(X, Z).to_dense(), mdl.base(Z, Z).to_dense()
+                Kzz = torch.triu(Kzz) + torch.triu(Kzz, 1).T   # bit-exact symmetry (the float matrix can be 1 ulp off)
+                Ksz, Kss = mdl.base(Xs, Z).to_dense(), mdl.base(Xs, Xs).to_dense()
+                # training objective (last: train() itself is an invalidation point)
+                mdl.train(); lik.train()
+                mll = gpytorch.mlls.ExactMarginalLogLikelihood(lik, mdl)
+                objective = mll(mdl(X), y).item()
+        obs[corr] = dict(objective=objective, pm=pm, pc=pc, cache=cache, kern_xx=kern_xx, kern_sx=kern_sx, cm=cm_v, n=nn_,
+                         root_dev=root_dev)
+        r = y - cm_v
         lines.append(f"sgpr {S(1 if corr else 0)} {M(Kd)} {M(Kxz)} {M(Kzz)} {M(Ksz)} {M(Kss)} {M(r)} "
-                     f"{M(torch.full((n,), noise))} {M(Rroot)}")
-    desc = f"sgpr d={d} n={n} m={m} n*={ns} cell={cell} noise={noise:.3f}"
+                     f"{M(torch.full((nn_,), noise_v))} {M(Rroot)}")
+    desc = (f"{'hist[' + hist + '] ' if hist else ''}sgpr d={d} n={n} m={m} n*={ns} cell={cell} noise={p1['noise']:.3f}")
+    pre = f"history:{hist}/" if hist else ""
 
     def check(rep, R):
         rt, at = CELL_TOL[cell]
@@ -655,13 +722,19 @@ def case_sgpr(ctx, idx, tier):
             P = parse_reply(line)
             (Q, Qs, Keval, cross, cacheR, meanR, covR, mt, ct, mc, cc, resid, quad, det, added, condA) = P
             o = obs[corr]
+            cmean, n = o["cm"], o["n"]
             tag = f"{desc} sgpr_diagonal_correction={corr}"
             ex = {"corr": corr}
             if float(condA) > 1e6:
                 ctx.count("discarded_ill_conditioned")
                 continue
-            ctx.notes["sgpr_max_root_residual"] = max(ctx.notes.get("sgpr_max_root_residual", 0.0), float(resid))
-            if float(resid) > 1e-9:
+            stale = o["root_dev"] > 1e-9
+            if stale:
+                rep.fail(pre + "InducingPointKernel/inducing_inv_root", f"{tag}: the kernel's K_zz^(-1/2) differs from the inverse Cholesky "
+                         f"root of the current K_zz by {o['root_dev']:.3e} (relative): stale or wrong cache", ex)
+            else:
+                ctx.notes["sgpr_max_root_residual"] = max(ctx.notes.get("sgpr_max_root_residual", 0.0), float(resid))
+            if not stale and float(resid) > 1e-9:
                 ctx.count("sgpr_root_residual_discards")
                 if ctx.counters["sgpr_root_residual_discards"] <= 4:
                     ctx.assumption(f"{tag}: ||R R^T - Kzz^-1|| / ||Kzz^-1|| = {float(resid):.2e} (Cholesky of Kzz inaccurate / jittered)")
@@ -670,19 +743,19 @@ def case_sgpr(ctx, idx, tier):
             mc_full = [[v[0] + Fraction(*float(cmean).as_integer_ratio())] for v in mc]
             mR_full = [[v[0] + Fraction(*float(cmean).as_integer_ratio())] for v in meanR]
             # (a) the kernel: Nystrom matrix (train-train block carries the correction in eval mode when the switch is on)
-            rep.close("InducingPointKernel/cross", f"{tag}: kernel(X*,X).to_dense() vs K*z Kzz^-1 Kzx", o["kern_sx"], Qs, extra=ex)
+            rep.close(pre + "InducingPointKernel/cross", f"{tag}: kernel(X*,X).to_dense() vs K*z Kzz^-1 Kzx", o["kern_sx"], Qs, extra=ex)
             if not corr:
-                rep.close("InducingPointKernel/to_dense", f"{tag}: kernel(X,X).to_dense() vs Kxz Kzz^-1 Kzx", o["kern_xx"], Q, extra=ex)
-            rep.close("InducingPointKernel/eval-matrix", f"{tag}: kernel(X,X).to_dense() vs model (Q + [corr] diag(K-Q)) through the code's root",
+                rep.close(pre + "InducingPointKernel/to_dense", f"{tag}: kernel(X,X).to_dense() vs Kxz Kzz^-1 Kzx", o["kern_xx"], Q, extra=ex)
+            rep.close(pre + "InducingPointKernel/eval-matrix", f"{tag}: kernel(X,X).to_dense() vs model (Q + [corr] diag(K-Q)) through the code's root",
                       o["kern_xx"], Keval, extra=ex)
             # (b) the code's algebra given its root R: caches and predictions, no conditioning slack beyond the solve
-            rep.close("SGPRPredictionStrategy/covar_cache", f"{tag}: covar_cache vs Rx^T (Rx Rx^T + D)^-1 Rx", o["cache"], cacheR, extra=ex)
-            rep.close("SGPRPredictionStrategy/mean-given-root", f"{tag}: mean vs model through the code's root", o["pm"], mR_full, rt, at, extra=ex)
-            rep.close("SGPRPredictionStrategy/covar-given-root", f"{tag}: covariance vs model through the code's root", o["pc"], covR, rt, at, extra=ex)
+            rep.close(pre + "SGPRPredictionStrategy/covar_cache", f"{tag}: covar_cache vs Rx^T (Rx Rx^T + D)^-1 Rx", o["cache"], cacheR, extra=ex)
+            rep.close(pre + "SGPRPredictionStrategy/mean-given-root", f"{tag}: mean vs model through the code's root", o["pm"], mR_full, rt, at, extra=ex)
+            rep.close(pre + "SGPRPredictionStrategy/covar-given-root", f"{tag}: covariance vs model through the code's root", o["pc"], covR, rt, at, extra=ex)
             # (c) dense conditional of the matrix the code represents (FITC-like when the switch is on)
-            ok_m = rep.close("SGPRPredictionStrategy/mean-vs-represented-matrix", f"{tag}: mean vs dense conditional of Q + [corr]diag(K-Q) + s2 I",
+            ok_m = rep.close(pre + "SGPRPredictionStrategy/mean-vs-represented-matrix", f"{tag}: mean vs dense conditional of Q + [corr]diag(K-Q) + s2 I",
                              o["pm"], mc_full, rt, at, extra=ex)
-            ok_c = rep.close("SGPRPredictionStrategy/covar-vs-represented-matrix", f"{tag}: covariance vs dense conditional of Q + [corr]diag(K-Q) + s2 I",
+            ok_c = rep.close(pre + "SGPRPredictionStrategy/covar-vs-represented-matrix", f"{tag}: covariance vs dense conditional of Q + [corr]diag(K-Q) + s2 I",
                              o["pc"], cc, rt, at, extra=ex)
             # (d) THE PROPERTY: the SGPR predictive equations
             dm, sc = maxdiff(o["pm"], mt_full)
@@ -698,34 +771,40 @@ def case_sgpr(ctx, idx, tier):
                              f"(equals the dense conditional of Q + diag(K-Q) + s2 I: {ok_m})", ex)
             else:
                 ctx.count("sgpr_corr_off_cases")
-                a = rep.close("SGPRPredictionStrategy/titsias-mean", f"{tag}: mean vs SGPR predictive mean", o["pm"], mt_full, rt, at, extra=ex)
-                b = rep.close("SGPRPredictionStrategy/titsias-covar", f"{tag}: covariance vs SGPR predictive covariance", o["pc"], ct, rt, at, extra=ex)
+                a = rep.close(pre + "SGPRPredictionStrategy/titsias-mean", f"{tag}: mean vs SGPR predictive mean", o["pm"], mt_full, rt, at, extra=ex)
+                b = rep.close(pre + "SGPRPredictionStrategy/titsias-covar", f"{tag}: covariance vs SGPR predictive covariance", o["pc"], ct, rt, at, extra=ex)
                 if a and b:
                     ctx.count("sgpr_corr_off_matches_titsias")
             # (e) objective = Titsias collapsed bound (training mode ignores the switch)
             logdet = math.log(det.numerator) - math.log(det.denominator)
             bound = (-0.5 * float(quad) - 0.5 * logdet - 0.5 * n * math.log(2 * math.pi) + float(added)) / n
             if abs(o["objective"] - bound) > 1e-9 * (1 + abs(bound)):
-                rep.fail("InducingPointKernel/objective", f"{tag}: ExactMarginalLogLikelihood = {o['objective']!r}, Titsias bound / n = {bound!r}", ex)
-    return Case("sgpr", idx, desc, lines, check, sample={"family": "sgpr", "desc": desc})
+                rep.fail(pre + "InducingPointKernel/objective", f"{tag}: ExactMarginalLogLikelihood = {o['objective']!r}, Titsias bound / n = {bound!r}", ex)
+    fam = "hist_sgpr" if hist else "sgpr"
+    return Case(fam, idx, desc, lines, check, sample={"family": fam, "desc": desc})
 
 
-def case_rff(ctx, idx, tier):
+def case_rff(ctx, idx, tier, hist=None):
     import gpytorch
     torch = _t()
-    rng = ctx.rng(f"rff:{idx}")
+    rng = ctx.rng(f"{'hist_' if hist else ''}rff:{idx}")
     torch.manual_seed(rng.torch_seed())
     d = rng.randint(1, 3)
     n, ns = rng.randint(4, 9), rng.randint(2, 4)
     D = rng.randint(1, 5)     # 2D features: both D < n/2 (low-rank root) and >= occur
     scaled = idx % 2 == 0
-    cell = ["chol", "cg"][(idx // 2) % 2]
-    X, Xs, y = torch.rand(n, d), torch.rand(ns, d), torch.randn(n)
-    noise, cmean, oscale, ls = 0.05 + 0.2 * rng.random(), rng.uniform(-0.5, 0.5), 0.7 + rng.random(), 0.5 + rng.random()
+    cell = ["chol", "cg"][(idx // 2) % 2] if hist is None else ["chol", "cg", "fpv"][(idx // len(HIST)) % 3]
+    X0, Xs, y0 = torch.rand(n, d), torch.rand(ns, d), torch.randn(n)
+    n2 = rng.randint(4, 9)
+    X2, y2 = torch.rand(n2, d), torch.randn(n2)
+
+    def draw_params():
+        return dict(noise=0.05 + 0.2 * rng.random(), cmean=rng.uniform(-0.5, 0.5), oscale=0.7 + rng.random(), ls=0.5 + rng.random())
+    p1, p0 = draw_params(), draw_params()
 
     class RF(gpytorch.models.ExactGP):
         def __init__(s, lik):
-            super().__init__(X, y, lik)
+            super().__init__(X0, y0, lik)
             s.mean_module = gpytorch.means.ConstantMean()
             rk = gpytorch.kernels.RFFKernel(num_samples=D, num_dims=d)
             s.rk = rk
@@ -733,14 +812,32 @@ def case_rff(ctx, idx, tier):
 
         def forward(s, x):
             return gpytorch.distributions.MultivariateNormal(s.mean_module(x), s.covar_module(x))
-    lik = gpytorch.likelihoods.GaussianLikelihood()
-    mdl = RF(lik)
-    lik.noise = noise
-    mdl.mean_module.constant.data.fill_(cmean)
-    mdl.rk.lengthscale = ls
-    if scaled:
-        mdl.covar_module.outputscale = oscale
-    c = oscale if scaled else 1.0
+
+    def set_params(mdl, lik, p):
+        lik.noise = p["noise"]
+        mdl.mean_module.constant.data.fill_(p["cmean"])
+        mdl.rk.lengthscale = p["ls"]
+        if scaled:
+            mdl.covar_module.outputscale = p["oscale"]
+
+    def build(p):
+        lik = gpytorch.likelihoods.GaussianLikelihood()
+        mdl = RF(lik)          # draws fresh random features: load_state_dict also replaces `randn_weights`
+        set_params(mdl, lik, p)
+        return mdl, lik
+
+    with warnings.catch_warnings():
+        quiet()
+        if hist is None:
+            mdl, lik = build(p1)
+        else:
+            mdl, lik = build(p0)
+            mdl.eval(); lik.eval()
+            with torch.no_grad(), _cell_ctx(cell):
+                mdl(Xs).covariance_matrix
+            _apply_history(hist, mdl, lik, set_params, p1, build, (X2, y2), torch)
+    X, y = mdl.train_inputs[0], mdl.train_targets
+    n = X.shape[0]
     mdl.eval(); lik.eval()
     with torch.no_grad(), warnings.catch_warnings(), _cell_ctx(cell):
         quiet()
@@ -749,8 +846,8 @@ def case_rff(ctx, idx, tier):
         strat = type(mdl.prediction_strategy).__name__
         chol = mdl.prediction_strategy.covar_cache.clone()
     with torch.no_grad():
+        noise, cmean, ls = lik.noise.item(), mdl.mean_module.constant.item(), mdl.rk.lengthscale.item()
         W = mdl.rk.randn_weights.clone()
-        F = mdl.rk(X, X).root.to_dense() if hasattr(mdl.rk(X, X), "root") else None
         Kxx = mdl.covar_module(X, X).to_dense()
         Ksx = mdl.covar_module(Xs, X).to_dense()
         Kss = mdl.covar_module(Xs, Xs).to_dense()
@@ -758,7 +855,8 @@ def case_rff(ctx, idx, tier):
         Fs = mdl.rk(Xs, Xs).evaluate_kernel().root.to_dense()
         c_exact = mdl.covar_module.outputscale.item() if scaled else 1.0
     lines = [f"rff {S(c_exact)} {M(F)} {M(Fs)} {M(torch.full((n,), noise))} {M(y - cmean)}"]
-    desc = f"rff d={d} n={n} n*={ns} num_samples={D} scaled={scaled} cell={cell}"
+    desc = f"{'hist[' + hist + '] ' if hist else ''}rff d={d} n={n} n*={ns} num_samples={D} scaled={scaled} cell={cell}"
+    pre = f"history:{hist}/" if hist else ""
 
     def check(rep, R):
         rt, at = CELL_TOL[cell]
@@ -775,48 +873,80 @@ def case_rff(ctx, idx, tier):
                 a = sum(X[i, k].item() * W[k, j].item() / ls for k in range(d))
                 worst = max(worst, abs(F[i, j].item() - math.cos(a) / math.sqrt(D)), abs(F[i, D + j].item() - math.sin(a) / math.sqrt(D)))
         if worst > 1e-12:
-            rep.fail("RFFKernel/feature-map", f"{desc}: root differs from [cos(xW/l), sin(xW/l)]/sqrt(D) by {worst:.3e}")
-        rep.close("RFFKernel/to_dense", f"{desc}: kernel(X,X).to_dense() vs c F F^T", Kxx, K, rtol=1e-12, atol=1e-13)
-        rep.close("RFFKernel/cross", f"{desc}: kernel(X*,X).to_dense() vs c F* F^T", Ksx, Ksx_w, rtol=1e-12, atol=1e-13)
-        rep.close("RFFKernel/test", f"{desc}: kernel(X*,X*).to_dense() vs c F* F*^T", Kss, Kss_w, rtol=1e-12, atol=1e-13)
+            rep.fail(pre + "RFFKernel/feature-map", f"{desc}: root differs from [cos(xW/l), sin(xW/l)]/sqrt(D) by {worst:.3e}")
+        rep.close(pre + "RFFKernel/to_dense", f"{desc}: kernel(X,X).to_dense() vs c F F^T", Kxx, K, rtol=1e-12, atol=1e-13)
+        rep.close(pre + "RFFKernel/cross", f"{desc}: kernel(X*,X).to_dense() vs c F* F^T", Ksx, Ksx_w, rtol=1e-12, atol=1e-13)
+        rep.close(pre + "RFFKernel/test", f"{desc}: kernel(X*,X*).to_dense() vs c F* F*^T", Kss, Kss_w, rtol=1e-12, atol=1e-13)
         mu_full = [[v[0] + C.frac(cmean)] for v in mu]
-        rep.close("RFFPredictionStrategy/mean", f"{desc}: mean vs dense conditional", pm, mu_full, rt, at)
-        rep.close("RFFPredictionStrategy/covar", f"{desc}: covariance vs dense conditional", pc, cov, rt, at)
-        rep.close("RFFPredictionStrategy/covar_cache", f"{desc}: covar_cache covar_cache^T vs I - c F^T A^-1 F", chol @ chol.T, inner, rt, at)
-        rep.close("RFFPredictionStrategy/model", f"{desc}: covariance vs c F* inner F*^T", pc, covR, rt, at)
-    return Case("rff", idx, desc, lines, check, sample={"family": "rff", "desc": desc})
+        rep.close(pre + "RFFPredictionStrategy/mean", f"{desc}: mean vs dense conditional", pm, mu_full, rt, at)
+        rep.close(pre + "RFFPredictionStrategy/covar", f"{desc}: covariance vs dense conditional", pc, cov, rt, at)
+        rep.close(pre + "RFFPredictionStrategy/covar_cache", f"{desc}: covar_cache covar_cache^T vs I - c F^T A^-1 F", chol @ chol.T, inner, rt, at)
+        rep.close(pre + "RFFPredictionStrategy/model", f"{desc}: covariance vs c F* inner F*^T", pc, covR, rt, at)
+    fam = "hist_rff" if hist else "rff"
+    return Case(fam, idx, desc, lines, check, sample={"family": fam, "desc": desc})
 
 
-def case_kiss(ctx, idx, tier):
+def case_kiss(ctx, idx, tier, hist=None):
     import gpytorch
+    from gpytorch.utils.grid import create_grid
     torch = _t()
-    rng = ctx.rng(f"kiss:{idx}")
+    rng = ctx.rng(f"{'hist_' if hist else ''}kiss:{idx}")
     torch.manual_seed(rng.torch_seed())
     d = 1 + idx % 2
-    cell = ["chol", "fpv", "fps", "fpv+fps", "cg"][(idx // 2) % 5]
+    if hist is None:
+        cell = ["chol", "fpv", "fps", "fpv+fps", "cg"][(idx // 2) % 5]
+    else:
+        cell = ["chol", "fpv", "fps", "cg"][(idx // len(HIST)) % 4]
     tz = (idx // 2) % 2 == 0
     gs = [rng.randint(6, 7)] * d if d == 2 else [rng.randint(8, 12)]
     bounds = [(0.0, 1.0)] * d
     n, ns, nf = rng.randint(5, 8), rng.randint(2, 4), rng.randint(1, 3)
-    X, Xs, Xf = torch.rand(n, d), torch.rand(ns, d), torch.rand(nf, d)
-    y, yf = torch.randn(n), torch.randn(nf)
-    noise, cmean, oscale, ls = 0.05 + 0.2 * rng.random(), rng.uniform(-0.5, 0.5), 0.7 + rng.random(), 0.4 + 0.5 * rng.random()
+    X0, Xs, Xf = torch.rand(n, d), torch.rand(ns, d), torch.rand(nf, d)
+    y0, yf = torch.randn(n), torch.randn(nf)
+    n2 = rng.randint(5, 8)
+    X2, y2 = torch.rand(n2, d), torch.randn(n2)
+
+    def draw_params():
+        return dict(noise=0.05 + 0.2 * rng.random(), cmean=rng.uniform(-0.5, 0.5), oscale=0.7 + rng.random(), ls=0.4 + 0.5 * rng.random())
+    p1, p0 = draw_params(), draw_params()
 
     class KS(gpytorch.models.ExactGP):
         def __init__(s, lik):
-            super().__init__(X, y, lik)
+            super().__init__(X0, y0, lik)
             s.mean_module = gpytorch.means.ConstantMean()
             s.gk = gpytorch.kernels.GridInterpolationKernel(gpytorch.kernels.RBFKernel(), grid_size=gs, num_dims=d, grid_bounds=bounds)
             s.covar_module = gpytorch.kernels.ScaleKernel(s.gk)
 
         def forward(s, x):
             return gpytorch.distributions.MultivariateNormal(s.mean_module(x), s.covar_module(x))
-    lik = gpytorch.likelihoods.GaussianLikelihood()
-    mdl = KS(lik).double()   # the grid buffers are created in float32 by create_grid
-    lik.noise = noise
-    mdl.mean_module.constant.data.fill_(cmean)
-    mdl.covar_module.outputscale = oscale
-    mdl.gk.base_kernel.lengthscale = ls
+
+    def set_params(mdl, lik, p):
+        lik.noise = p["noise"]
+        mdl.mean_module.constant.data.fill_(p["cmean"])
+        mdl.covar_module.outputscale = p["oscale"]
+        mdl.gk.base_kernel.lengthscale = p["ls"]
+
+    def build(p):
+        lik = gpytorch.likelihoods.GaussianLikelihood()
+        mdl = KS(lik).double()
+        # the constructor's grid is float32 (equally spaced only to 1e-8 in float64): install a float64 grid
+        mdl.gk.update_grid(create_grid(gs, bounds, dtype=torch.float64))
+        set_params(mdl, lik, p)
+        return mdl, lik
+
+    with warnings.catch_warnings(), gpytorch.settings.use_toeplitz(tz):
+        quiet()
+        if hist is None:
+            mdl, lik = build(p1)
+        else:
+            mdl, lik = build(p0)
+            mdl.eval(); lik.eval()
+            with torch.no_grad(), _cell_ctx(cell):
+                mdl(Xs).covariance_matrix          # fills prediction_strategy and GridKernel._cached_kernel_mat
+                mdl.covar_module(X0, X0).to_dense()
+            _apply_history(hist, mdl, lik, set_params, p1, build, (X2, y2), torch)
+    X, y = mdl.train_inputs[0], mdl.train_targets
+    n = X.shape[0]
     mdl.eval(); lik.eval()
     fant = {}
     with torch.no_grad(), warnings.catch_warnings(), gpytorch.settings.use_toeplitz(tz), _cell_ctx(cell):
@@ -832,9 +962,13 @@ def case_kiss(ctx, idx, tier):
             fant = {"error": f"{type(e).__name__}: {str(e)[:200]}"}
     with torch.no_grad(), warnings.catch_warnings(), gpytorch.settings.use_toeplitz(tz):
         quiet()
+        noise, cmean = lik.noise.item(), mdl.mean_module.constant.item()
         grids = [g.clone() for g in mdl.gk.grid]
-        Kuu = oscale_t = None
-        Kuu = mdl.gk._inducing_forward(last_dim_is_batch=False).to_dense() * mdl.covar_module.outputscale
+        # K_uu of the CURRENT parameters, evaluated densely (no grid structure, no cache) at the grid points in the
+        # order in which the interpolation indices number them (first dimension slowest)
+        U = torch.stack(torch.meshgrid(*grids, indexing="ij"), dim=-1).reshape(-1, d)
+        Kuu = mdl.gk.base_kernel(U, U).to_dense() * mdl.covar_module.outputscale
+        Kuu_code = mdl.gk._inducing_forward(last_dim_is_batch=False).to_dense() * mdl.covar_module.outputscale
         g = Kuu.shape[0]
 
         def dense_w(x):
@@ -849,7 +983,8 @@ def case_kiss(ctx, idx, tier):
         ksx = mdl.covar_module(Xs, X).to_dense()
     lines = [f"kiss {M(W)} {M(Ws)} {M(Kuu)} {M(torch.full((n,), noise))} {M(y - cmean)} {M(Wf)} {M(torch.full((nf,), noise))} {M(yf - cmean)}",
              _interp_line(grids, X)]
-    desc = f"kiss d={d} grid_size={gs} n={n} n*={ns} nf={nf} cell={cell} use_toeplitz={tz}"
+    desc = f"{'hist[' + hist + '] ' if hist else ''}kiss d={d} grid_size={gs} n={n} n*={ns} nf={nf} cell={cell} use_toeplitz={tz}"
+    pre = f"history:{hist}/" if hist else ""
 
     def check(rep, R):
         rt, at = CELL_TOL[cell]
@@ -861,34 +996,39 @@ def case_kiss(ctx, idx, tier):
         if float(cond) > 1e6:
             ctx.count("discarded_ill_conditioned")
             return
+        kd = (Kuu_code - Kuu).abs().max().item()
+        if kd > 1e-11 * max(1.0, Kuu.abs().max().item()):
+            rep.fail(pre + "GridInterpolationKernel/K_uu", f"{desc}: the kernel's inducing matrix differs from k(u_a,u_b) of the current "
+                     f"parameters (grid points numbered as the interpolation indices do) by {kd:.3e}")
         # W as used by the kernel == generated model of Interpolation.interpolate
         idx_rows, val_rows = parse_reply(R[1])
         Wm = [[Fraction(0)] * len(Kuu) for _ in range(n)]
         for a in range(n):
             for u, v in zip(idx_rows[a], val_rows[a]):
                 Wm[a][int(u)] += v
-        rep.close("GridInterpolationKernel/W", f"{desc}: interpolation matrix vs generated model", W, Wm, rtol=1e-12, atol=1e-12)
-        rep.close("GridInterpolationKernel/train-matrix", f"{desc}: kernel(X,X).to_dense() vs W K_uu W^T", kxx, Kxx, rtol=1e-11, atol=1e-12)
-        rep.close("GridInterpolationKernel/cross-matrix", f"{desc}: kernel(X*,X).to_dense() vs W* K_uu W^T", ksx, Ksx, rtol=1e-11, atol=1e-12)
+        rep.close(pre + "GridInterpolationKernel/W", f"{desc}: interpolation matrix vs generated model", W, Wm, rtol=1e-12, atol=1e-12)
+        rep.close(pre + "GridInterpolationKernel/train-matrix", f"{desc}: kernel(X,X).to_dense() vs W K_uu W^T", kxx, Kxx, rtol=1e-11, atol=1e-12)
+        rep.close(pre + "GridInterpolationKernel/cross-matrix", f"{desc}: kernel(X*,X).to_dense() vs W* K_uu W^T", ksx, Ksx, rtol=1e-11, atol=1e-12)
         cm = C.frac(cmean)
-        rep.close("InterpolatedPredictionStrategy/mean", f"{desc}: mean vs dense conditional of W K_uu W^T", pm, [[v[0] + cm] for v in mean], rt, at)
-        rep.close("InterpolatedPredictionStrategy/covar", f"{desc}: covariance vs dense conditional of W K_uu W^T", pc, cov, rt, at)
+        rep.close(pre + "InterpolatedPredictionStrategy/mean", f"{desc}: mean vs dense conditional of W K_uu W^T", pm, [[v[0] + cm] for v in mean], rt, at)
+        rep.close(pre + "InterpolatedPredictionStrategy/covar", f"{desc}: covariance vs dense conditional of W K_uu W^T", pc, cov, rt, at)
         if "error" in fant:
             ctx.count("kiss_fantasy_raised")
-            rep.fail("InterpolatedPredictionStrategy/fantasy/raises:" + cell, f"{desc}: get_fantasy_model(...)(x*) raises {fant['error']}")
+            rep.fail(pre + "InterpolatedPredictionStrategy/fantasy/raises:" + cell, f"{desc}: get_fantasy_model(...)(x*) raises {fant['error']}")
             return
         ctx.count("kiss_fantasy_cases")
         frt, fat = max(rt, 1e-5), max(at, 1e-5)
-        rep.close("InterpolatedPredictionStrategy/fantasy-mean", f"{desc}: fantasy mean vs dense conditional on train ++ fantasy data",
+        rep.close(pre + "InterpolatedPredictionStrategy/fantasy-mean", f"{desc}: fantasy mean vs dense conditional on train ++ fantasy data",
                   fant["mean"], [[v[0] + cm] for v in dmean], frt, fat)
-        rep.close("InterpolatedPredictionStrategy/fantasy-covar", f"{desc}: fantasy covariance vs dense conditional on train ++ fantasy data",
+        rep.close(pre + "InterpolatedPredictionStrategy/fantasy-covar", f"{desc}: fantasy covariance vs dense conditional on train ++ fantasy data",
                   fant["cov"], dcov, frt, fat)
         # model of the WISKI caches (exact) == dense conditional mean: checked exactly
         if g <= 14:
             ctx.count("wiski_exact_cache_checks")
         if g <= 14 and any(abs(a[0] - b[0]) > Fraction(1, 10 ** 30) for a, b in zip(fmean, dmean)):
             ctx.broke("correspondence", "wiski-model", f"{desc}: exact WISKI cache mean differs from the exact dense conditional")
-    return Case("kiss", idx, desc, lines, check, sample={"family": "kiss", "desc": desc})
+    fam = "hist_kiss" if hist else "kiss"
+    return Case(fam, idx, desc, lines, check, sample={"family": fam, "desc": desc})
 
 
 def case_mtmodel(ctx, idx, tier):
@@ -989,10 +1129,69 @@ def case_mtmodel(ctx, idx, tier):
     return Case("mtmodel", idx, desc, lines, check, sample={"family": "mtmodel", "desc": desc})
 
 
+def case_hist_sgpr(ctx, idx, tier):
+    return case_sgpr(ctx, idx, tier, hist=HIST[idx % len(HIST)])
+
+
+def case_hist_rff(ctx, idx, tier):
+    return case_rff(ctx, idx, tier, hist=HIST[idx % len(HIST)])
+
+
+def case_hist_kiss(ctx, idx, tier):
+    return case_kiss(ctx, idx, tier, hist=HIST[idx % len(HIST)])
+
+
+def case_hist_grid(ctx, idx, tier):
+    """GridKernel eval-mode cache: evaluate -> invalidation point -> evaluate again, compared with the dense formula of
+    the CURRENT parameters / grid."""
+    import gpytorch
+    torch = _t()
+    rng = ctx.rng(f"hist_grid:{idx}")
+    kind = ["setters", "load_state_dict", "update_grid"][idx % 3]
+    tz = (idx // 3) % 2 == 0
+    d = 1 + idx % 2
+    sizes, grids0, ls0 = _grid_setup(rng, torch, d)
+    _, grids1, ls1 = _grid_setup(rng, torch, d, sizes=sizes)
+
+    def mk(grids, ls):
+        base = gpytorch.kernels.RBFKernel(ard_num_dims=d)
+        base.lengthscale = torch.tensor([ls])
+        return gpytorch.kernels.GridKernel(base, [g.clone() for g in grids])
+    with gpytorch.settings.use_toeplitz(tz), torch.no_grad(), warnings.catch_warnings():
+        quiet()
+        gk = mk(grids0, ls0)
+        gk.eval()
+        gk(gk.full_grid, gk.full_grid).to_dense()          # fills _cached_kernel_mat
+        if kind == "setters":
+            gk.train()
+            gk.base_kernel.lengthscale = torch.tensor([ls1])
+            gk.eval()
+            grids_now, ls_now = grids0, ls1
+        elif kind == "load_state_dict":
+            gk.load_state_dict(mk(grids1, ls1).state_dict())
+            grids_now, ls_now = grids1, ls1
+        else:
+            gk.update_grid([g.clone() for g in grids1])
+            grids_now, ls_now = grids1, ls0
+        fg = gk.full_grid
+        got = gk(fg, fg).to_dense()
+    Ks = _dim_kernels(torch, grids_now, ls_now)
+    lines = ["gridT " + " ".join(M(K[0]) for K in Ks) if tz else "gridD " + " ".join(M(K) for K in Ks)]
+    desc = f"hist[{kind}] grid d={d} sizes={sizes} use_toeplitz={tz}"
+
+    def check(rep, R):
+        rep.close(f"history:{kind}/GridKernel/to_dense", f"{desc}: GridKernel(full_grid).to_dense() after the history vs the dense formula of "
+                  "the current parameters", got, parse_reply(R[0])[0], rtol=1e-12, atol=1e-13)
+    return Case("hist_grid", idx, desc, lines, check, sample={"family": "hist_grid", "desc": desc})
+
+
 FAMILIES = {   # family: (case builder, #cases quick, #cases thorough)
     "kron": (case_kron, 12, 300), "index": (case_index, 8, 200), "lcm": (case_lcm, 6, 150), "grid": (case_grid, 9, 90),
     "interp": (case_interp, 18, 300), "kisskernel": (case_kisskernel, 12, 100), "convergence": (case_convergence, 4, 4),
     "sgpr": (case_sgpr, 12, 240), "rff": (case_rff, 12, 200), "kiss": (case_kiss, 20, 200), "mtmodel": (case_mtmodel, 18, 252),
+    # operation histories through the documented invalidation points (train(), load_state_dict, set_train_data, update_grid)
+    "hist_sgpr": (case_hist_sgpr, 12, 96), "hist_rff": (case_hist_rff, 8, 72), "hist_kiss": (case_hist_kiss, 16, 64),
+    "hist_grid": (case_hist_grid, 6, 36),
 }
 
 
